@@ -785,7 +785,7 @@ func (fox *Router) parseRoute(url string) (uint32, int, error) {
 				if i < endHost {
 					c := url[i]
 					switch {
-					case 'a' <= c && c <= 'z' || 'A' <= c && c <= 'Z' || c == '_':
+					case 'a' <= c && c <= 'z' || 'A' <= c && c <= 'Z':
 						nonNumeric = true
 						partlen++
 					case '0' <= c && c <= '9':
